@@ -27,6 +27,12 @@ def run_once(mod, hname, target, inputs, seed):
     except spec.NotReplayable as e:
         return "not-replayable", str(e)
     except Exception as e:
+        if target == "**":
+            for name, ok in spec.S.results:
+                if not ok:
+                    return "fails", "obligation false: " + name
+            return "fails", "obligation false: no-unexpected-exception (%s: %s)\n%s" % (
+                type(e).__name__, e, traceback.format_exc()[-500:])
         if target == "*":
             for name, ok in spec.S.results:
                 if not ok:
@@ -43,9 +49,9 @@ def run_once(mod, hname, target, inputs, seed):
         return "fails", "native run raised before the obligation: %s: %s\n%s" % (
             type(e).__name__, e, traceback.format_exc()[-600:])
     for name, ok in spec.S.results:
-        if (name == target or target == "*") and not ok:
+        if (name == target or target in ("*", "**")) and not ok:
             return "fails", "obligation false: " + name
-    seen = any(name == target for name, _ in spec.S.results) or target == "*"
+    seen = any(name == target for name, _ in spec.S.results) or (target in ("*", "**") and len(spec.S.results) > 0)
     return ("holds" if seen else "not-reached"), ""
 
 
@@ -91,21 +97,24 @@ def main(argv):
         # inputs the model does not mention are drawn from the seeded generator: vary the seed as well
         tries.append(("search-%d" % k, perturb(rng, inputs, 0.05 if k < n_search // 2 else 0.5)))
     last = ("holds", "")
+    evaluated = 0
     for n_, (tag, inp) in enumerate(tries):
         sd = seed0 if tag == "model" else seed0 + n_
         st, msg = run_once(mod, hname, target, inp, sd)
         if tag == "model":
             last = (st, msg)
+        if st == "holds":
+            evaluated += 1
         if st == "fails":
             from pyvc import spec
             full = dict(getattr(spec.S, "drawn", {}))
             full.update(inp)
             out = dict(status="fails", how=tag, inputs=full, seed=sd, message=msg)
             if msg.startswith("obligation false: "):
-                out["obligation"] = msg[len("obligation false: "):]
+                out["obligation"] = msg[len("obligation false: "):].split(" (")[0].split("\n")[0]
             print(json.dumps(out, default=str))
             return 1
-    print(json.dumps(dict(status=last[0], message=last[1], tried=len(tries)), default=str))
+    print(json.dumps(dict(status=last[0], message=last[1], tried=len(tries), evaluated=evaluated), default=str))
     return 0
 
 
